@@ -8,14 +8,15 @@ def sh(*a, **k):
     return subprocess.run(a, capture_output=True, text=True, **k)
 assert sh('git', '-C', '/repo', 'status', '--porcelain').stdout.strip() == '', '/repo not clean'
 head = sh('git', '-C', '/repo', 'rev-parse', '--short', 'HEAD').stdout.strip()
-sel = sys.argv[1:]
+own_only = '--own' in sys.argv
+sel = [a for a in sys.argv[1:] if a != '--own']
 bad = 0
 for d in sorted(glob.glob(os.path.join(root, 'seeded', '*'))):
     name = os.path.basename(d)
     if sel and not any(name.startswith(p) for p in sel):
         continue
     m = json.load(open(os.path.join(d, 'meta.json')))
-    ids = sorted(set([m['property']] + m['caught_by_quick']))
+    ids = [m['property']] if own_only else sorted(set([m['property']] + m['caught_by_quick']))
     r = sh('git', '-C', '/repo', 'apply', os.path.join(d, 'patch.diff'))
     if r.returncode != 0:
         print(name, 'PATCH DOES NOT APPLY', r.stderr[:200]); bad += 1
@@ -30,9 +31,10 @@ for d in sorted(glob.glob(os.path.join(root, 'seeded', '*'))):
         sh('git', '-C', '/repo', 'checkout', '--', '.')
         subprocess.run(['git', '-C', '/repo', 'clean', '-fdq', 'fxpmath'])
     own = res[m['property']]['rc'] == 1
-    m['confirmed_on_repo'] = {'repo_head': head, 'results': res, 'own_check_catches': own}
-    m['caught_by_quick'] = [i for i in ids if res[i]['rc'] == 1]
-    json.dump(m, open(os.path.join(d, 'meta.json'), 'w'), indent=1)
+    if not own_only:
+        m['confirmed_on_repo'] = {'repo_head': head, 'results': res, 'own_check_catches': own}
+        m['caught_by_quick'] = [i for i in ids if res[i]['rc'] == 1]
+        json.dump(m, open(os.path.join(d, 'meta.json'), 'w'), indent=1)
     print(name, ' '.join('%s:%d' % (i, res[i]['rc']) for i in ids), '' if own else '   <-- own check silent')
     if not own:
         bad += 1
